@@ -136,9 +136,13 @@ let emit_case id main files stddir =
                | Transpile.TOk (script, _) -> "ok:" ^ hex_of_bytes script
                | Transpile.TErr -> "err"
                | Transpile.TPanic -> "panic") in
-      Printf.printf "emit %s bash=%s\n" id b
-  | FrontModel.PErr -> Printf.printf "emit %s bash=err\n" id
-  | FrontModel.PFuel -> Printf.printf "emit %s bash=fuel\n" id
+      let w = (match BatchConv.emit_batch body with
+               | Transpile.TOk (script, _) -> "ok:" ^ hex_of_bytes script
+               | Transpile.TErr -> "err"
+               | Transpile.TPanic -> "panic") in
+      Printf.printf "emit %s bash=%s batch=%s\n" id b w
+  | FrontModel.PErr -> Printf.printf "emit %s bash=err batch=err\n" id
+  | FrontModel.PFuel -> Printf.printf "emit %s bash=fuel batch=fuel\n" id
 
 let () =
   try
